@@ -607,7 +607,7 @@ class HyperParameters:
                     # Not `hp.random_sample()`: an unseeded draw would make
                     # the search irreproducible.
                     self.values[hp.name] = hp.default
-            else:
+            elif not self.is_active(hp.name):
                 # Another entry of the same name (declared under different
                 # conditions) may be active and own the value.
                 self.values.pop(hp.name, None)
